@@ -10,6 +10,7 @@ import (
 	"fmt"
 	"hash"
 	"testing"
+	"unsafe"
 
 	"github.com/emmansun/gmsm/cbcmac"
 	"github.com/emmansun/gmsm/padding"
@@ -363,15 +364,68 @@ func (c valCase) Key() string {
 	return fmt.Sprintf("%d/%d/%d/%d/%d/%d/%d/%d/%v", c.Scheme, c.Ci, c.Pad, c.Size, c.Len, c.Content, c.Spare, c.Z, c.Scribble)
 }
 
+// retainer is the mirror image of the scribble discipline: every slice the
+// object hands back during a history (MAC results, Sum results) is KEPT by
+// the "caller" together with a private copy of its whole capacity taken at
+// once (after the caller's own scribbling, if any). After every later
+// operation on the object - and on any other object of the library - and at
+// the end of the history each kept slice must still hold exactly what the
+// caller last saw in it: a result that aliases the object's internal state, a
+// reused working buffer, another result or library-owned memory changes
+// under the caller's hands. (Sum(dst) appending into dst's own backing array
+// is fine: that memory is the caller's and every op uses a buffer of its own.)
+type retainer struct {
+	items []keptSlice
+}
+
+type keptSlice struct {
+	s, want []byte
+	what    string
+}
+
+func (k *retainer) keep(s []byte, what string) {
+	s = s[:cap(s)]
+	k.items = append(k.items, keptSlice{s, append([]byte{}, s...), what})
+}
+
+func (k *retainer) verify(o Obj, after string) error {
+	for _, it := range k.items {
+		if !bytes.Equal(it.s, it.want) {
+			return fmt.Errorf("%v: the slice returned by %s was %s when the caller kept it and is %s after %s: the result aliases memory that the object, a later result or the library still writes to",
+				o, it.what, h.Hex(it.want), h.Hex(it.s), after)
+		}
+	}
+	return nil
+}
+
+// overlaps reports whether the memory of a (whole capacity) and b (whole
+// capacity) intersect.
+func overlaps(a, b []byte) bool {
+	a, b = a[:cap(a)], b[:cap(b)]
+	if len(a) == 0 || len(b) == 0 {
+		return false
+	}
+	a0 := uintptr(unsafe.Pointer(unsafe.SliceData(a)))
+	b0 := uintptr(unsafe.Pointer(unsafe.SliceData(b)))
+	return a0 < b0+uintptr(len(b)) && b0 < a0+uintptr(len(a))
+}
+
 // macCall runs MAC on a private copy of orig handed over in the flavour
 // (spare, z), checks that the message bytes are intact and returns a private
 // copy of the tag. With scrib the argument slice (spare capacity included)
 // and the returned slice (up to its capacity) are overwritten with garbage
 // afterwards: nothing the object does later may depend on either.
-func macCall(m cbcmac.BlockCipherMAC, o Obj, orig []byte, spare, z int, scrib bool, r *h.Rec, seen *[3]bool) ([]byte, error) {
+//
+// The returned slice is kept in keep (see retainer); it must not share memory
+// with the caller's message slice or its spare capacity (MAC documents no
+// append semantics for its result).
+func macCall(m cbcmac.BlockCipherMAC, o Obj, orig []byte, spare, z int, scrib bool, r *h.Rec, seen *[3]bool, keep *retainer) ([]byte, error) {
 	msg, backing := argSlice(orig, spare, z, seen)
 	ret := m.MAC(msg)
 	tag := append([]byte{}, ret...)
+	if overlaps(ret, backing) || overlaps(ret, msg) {
+		return nil, fmt.Errorf("%v: the slice returned by MAC shares memory with the caller's message slice (len %d, spare capacity %d)", o, len(orig), spare)
+	}
 	if !bytes.Equal(msg, orig) {
 		return nil, fmt.Errorf("%v: MAC modified the caller's message (spare capacity %d): %s -> %s", o, spare, h.Hex(orig), h.Hex(msg))
 	}
@@ -384,6 +438,7 @@ func macCall(m cbcmac.BlockCipherMAC, o Obj, orig []byte, spare, z int, scrib bo
 		scribble(ret)
 		scribble(backing)
 	}
+	keep.keep(ret, fmt.Sprintf("MAC(%d bytes)", len(orig)))
 	return tag, nil
 }
 
@@ -411,7 +466,8 @@ func checkVal(c valCase, r *h.Rec) error {
 		return fmt.Errorf("%v: BlockSize() = %d, cipher block size %d", o, cm.BlockSize(), bs)
 	}
 	var seen [3]bool
-	tag, err := macCall(m, o, orig, c.Spare, c.Z, c.Scribble, r, &seen)
+	var keep retainer
+	tag, err := macCall(m, o, orig, c.Spare, c.Z, c.Scribble, r, &seen, &keep)
 	if err != nil {
 		return err
 	}
@@ -424,11 +480,17 @@ func checkVal(c valCase, r *h.Rec) error {
 	}
 	// cheap history: another message of another length class, then m again
 	other := buildMsg(c.Seed^0x5a5a, c.Len+bs/2+1, 0, bs)
-	if _, err := macCall(m, o, other, 0, zEmpty, c.Scribble, &h.Rec{}, &seen); err != nil {
+	if _, err := macCall(m, o, other, 0, zEmpty, c.Scribble, &h.Rec{}, &seen, &keep); err != nil {
 		return err
 	}
-	again, err := macCall(m, o, orig, 0, (c.Z+1)%3, c.Scribble, &h.Rec{}, &seen)
+	if err := keep.verify(o, "MAC(m') on the same object"); err != nil {
+		return err
+	}
+	again, err := macCall(m, o, orig, 0, (c.Z+1)%3, c.Scribble, &h.Rec{}, &seen, &keep)
 	if err != nil {
+		return err
+	}
+	if err := keep.verify(o, "MAC(m'); MAC(m) on the same object"); err != nil {
 		return err
 	}
 	if !bytes.Equal(again, tag) {
@@ -568,6 +630,7 @@ func checkHist(c histCase, r *h.Rec) error {
 	}
 	var stream []byte // bytes written since the last Reset
 	var seen [3]bool
+	var keep retainer // every slice the object handed back, see retainer
 	nMac, nWrite, nSum, empties, boundary := 0, 0, 0, 0, 0
 	// sumCheck: Sum(in) with in = prefixLen bytes in the flavour (spare, z);
 	// Sum is documented to append, so spare capacity of in may be used.
@@ -583,6 +646,7 @@ func checkHist(c histCase, r *h.Rec) error {
 			scribble(out)
 			scribble(backing)
 		}
+		keep.keep(out, fmt.Sprintf("Sum (op %d, %d-byte prefix, flavour %d, spare %d)", i, prefixLen, z, spare))
 		after := describe(c.Ops[:min(i, len(c.Ops))])
 		// model-free relation first: it needs no reference to be believed
 		if fresh := freshTag(o, stream); !bytes.Equal(tag, fresh) {
@@ -599,7 +663,7 @@ func checkHist(c histCase, r *h.Rec) error {
 		case "mac":
 			nMac++
 			orig := buildMsg(gen.Mix(c.Seed, uint64(i)), op.N, op.C, bs)
-			tag, err := macCall(m, o, orig, op.Spare, op.Z, c.Scribble, r, &seen)
+			tag, err := macCall(m, o, orig, op.Spare, op.Z, c.Scribble, r, &seen, &keep)
 			if err != nil {
 				return fmt.Errorf("op %d: %v", i, err)
 			}
@@ -658,6 +722,11 @@ func checkHist(c histCase, r *h.Rec) error {
 		if m.Size() != o.Size {
 			return fmt.Errorf("op %d: %v: Size() = %d", i, o, m.Size())
 		}
+		// after every operation (and the fresh-object computations that went
+		// with it) everything handed back earlier is still what the caller saw
+		if err := keep.verify(o, describe(c.Ops[:i+1])); err != nil {
+			return fmt.Errorf("op %d: %v", i, err)
+		}
 	}
 	if isCMAC {
 		// every streaming history ends in an observation, twice (Sum; Sum)
@@ -668,9 +737,23 @@ func checkHist(c histCase, r *h.Rec) error {
 			}
 		}
 		seen = final
-		if got := cm.MAC(append([]byte{}, stream...)); !bytes.Equal(got, freshTag(o, stream)) {
+		if err := keep.verify(o, describe(c.Ops)+"; Sum; Sum"); err != nil {
+			return err
+		}
+		got := cm.MAC(append([]byte{}, stream...))
+		keep.keep(got, "the closing MAC")
+		if !bytes.Equal(got, freshTag(o, stream)) {
 			return fmt.Errorf("%v: history dependence: final MAC(m) after %s = %s, fresh = %s", o, describe(c.Ops), h.Hex(got), h.Hex(freshTag(o, stream)))
 		}
+		cm.Reset()
+		cm.Write([]byte{0x5a})
+		cm.Sum(nil)
+	}
+	if err := keep.verify(o, "the whole history "+describe(c.Ops)); err != nil {
+		return err
+	}
+	if len(keep.items) > 1 {
+		r.Label("retained-results>1")
 	}
 	labelFlavours(r, &seen)
 	if nMac+nWrite > 1 || (nWrite > 0 && nSum > 0) {
@@ -1054,12 +1137,16 @@ func checkBit(c bitCase, r *h.Rec) error {
 	}
 	var seen [3]bool
 	m := newLibS(o, scrib)
-	ta, err := macCall(m, o, a, c.Bit%3, zBuf0, scrib, r, &seen)
+	var keep retainer
+	ta, err := macCall(m, o, a, c.Bit%3, zBuf0, scrib, r, &seen, &keep)
 	if err != nil {
 		return err
 	}
-	tb, err := macCall(m, o, b, 0, zBuf0, scrib, r, &seen)
+	tb, err := macCall(m, o, b, 0, zBuf0, scrib, r, &seen, &keep)
 	if err != nil {
+		return err
+	}
+	if err := keep.verify(o, "the MAC of the second message of the pair"); err != nil {
 		return err
 	}
 	if err := checkTag(o, a, ta, r, "one-bit pair, first message"); err != nil {
